@@ -154,13 +154,15 @@ impl Acc {
         }
     }
     pub fn violation(&mut self, signature: &str, detail: Value) {
-        if self.violations.len() < 50 {
+        // keep a few witnesses per signature so that a frequent finding can never crowd a
+        // different one out of the run
+        self.count(&format!("witnesses.{signature}"));
+        let have = self.violations.iter().filter(|v| v.signature == signature).count();
+        if have < 3 && self.violations.len() < 600 {
             self.violations.push(Violation {
                 signature: signature.to_string(),
                 detail,
             });
-        } else {
-            self.count("violations_dropped_over_cap");
         }
     }
     pub fn inconclusive(&mut self, reason: &str) {
@@ -187,7 +189,8 @@ impl Acc {
             self.sets.entry(k).or_default().extend(v);
         }
         for v in o.violations {
-            if self.violations.len() < 200 {
+            let have = self.violations.iter().filter(|x| x.signature == v.signature).count();
+            if have < 3 && self.violations.len() < 2000 {
                 self.violations.push(v);
             }
         }
